@@ -121,6 +121,19 @@ fn gen_script(rng: &mut Rng, fx: &Fixtures) -> (Vec<u8>, String) {
     for _ in 0..rng.small(5) {
         s.extend_from_slice(*rng.pick(&[&b"var a=1;\n"[..], b"function foo(){return 1}\r\n", b"// comment\n", b"\n", b"//# sourceMappingURL\n", b"/* x */ \xc3\xa9\n", b"x\r"]));
     }
+    // comment lines that merely look like a reference: "//# " / "//@ " followed by ASCII of a
+    // seeded length and then a multi-byte character, so that every small byte offset of the line
+    // (in particular offset 21, where the URL would start) can fall inside a character
+    for _ in 0..rng.small(3) {
+        s.extend_from_slice(*rng.pick(&[&b"//# "[..], b"//@ ", b"//#", b"// "]));
+        let body: &[u8] = *rng.pick(&[&b"sourceMappingURL"[..], b"sourceURL=/home/", b"source", b"sourceMappingURL=", b"x"]);
+        s.extend_from_slice(body);
+        for _ in 0..rng.below(6) {
+            s.push(*rng.pick(&b"abc=/."[..]));
+        }
+        s.extend_from_slice(*rng.pick(&["é".as_bytes(), "＝".as_bytes(), "👌".as_bytes(), "€".as_bytes()]));
+        s.extend_from_slice(*rng.pick(&[&b"milie/app.js\n"[..], b"foo.js.map\n", b"\n", b"\r\n"]));
+    }
     let prefix: &[u8] = *rng.pick(&[&b"//# sourceMappingURL="[..], b"//@ sourceMappingURL=", b"//# sourceMappingURL= ", b" //# sourceMappingURL=", b"//# sourceMappingURL"]);
     s.extend_from_slice(prefix);
     match rng.below(6) {
